@@ -116,7 +116,57 @@ def run_shard(job, shard, seed, tier):
     return r
 
 
+NEG_DIR = os.path.join(VERIF, "harness_neg")
+NEG_SRC = os.path.join(NEG_DIR, "src", "main.rs")
+BORROWCK = re.compile(r"src/main\.rs:(\d+):\d+: error(\[E0(499|502|505|506|597|716|373|521)\]|: lifetime may not live long enough)")
+
+
+def run_neg_compile(job, shard, seed, tier):
+    """C18, negative direction: the compiler is the monitor. Every NEG block of harness_neg/src/main.rs must be rejected
+    by the borrow checker; a block without an error is a program that keeps a reference while it mutates / drops the cache."""
+    prop = job["prop"]
+    t0 = time.time()
+    with open(os.path.join(TARGET, ".lock-native"), "w") as lk:
+        fcntl.flock(lk, fcntl.LOCK_EX)
+        p = subprocess.run(["cargo", "build", "--offline", "--bin", "lruverif_c18neg", "--target-dir", os.path.join(TARGET, "neg"), "--message-format", "short"],
+                           cwd=NEG_DIR, env=dict(ENV_BASE), stdout=subprocess.PIPE, stderr=subprocess.STDOUT, text=True)
+    out = p.stdout
+    err_lines = set(int(m.group(1)) for m in BORROWCK.finditer(out))
+    other = [l for l in out.splitlines() if " error" in l and not BORROWCK.search(l) and "could not compile" not in l and "aborting due to" not in l]
+    blocks, cur = [], None
+    for i, l in enumerate(open(NEG_SRC).read().splitlines(), 1):
+        if l.startswith("// NEG-BEGIN"):
+            cur = [l[len("// NEG-BEGIN"):].strip(), i, None]
+        elif l.startswith("// NEG-END") and cur:
+            cur[2] = i
+            blocks.append(cur)
+            cur = None
+    res = {"events": len(blocks), "evals": {prop: 0}, "distinct": {prop: []}, "counters": {}, "maxima": {}, "failures": [], "viol_counts": {}, "samples": {prop: []}}
+    argv = ["neg_compile", "lruverif_c18neg"]
+    if other or not blocks:
+        # the file no longer type-checks (the API changed under it): the borrow checker did not run, nothing is decided
+        return {"job": job, "shard": shard, "seed": seed, "argv": argv, "mode": job["mode"], "rc": 2, "timed_out": False, "result": None, "reports": [], "last_marker": None,
+                "stderr_tail": "negative compile programs did not reach the borrow checker: " + " | ".join(other[:3])[:1500], "stdout_tail": out[-1500:], "wall": time.time() - t0}
+    for name, a, b in blocks:
+        res["evals"][prop] += 1
+        res["distinct"][prop].append("neg%x" % splitmix("neg", name))
+        res["counters"]["c18_programs_that_must_not_compile"] = res["counters"].get("c18_programs_that_must_not_compile", 0) + 1
+        rejected = any(a <= n <= b for n in err_lines)
+        if rejected:
+            res["counters"]["c18_programs_rejected_by_the_borrow_checker"] = res["counters"].get("c18_programs_rejected_by_the_borrow_checker", 0) + 1
+        else:
+            res["failures"].append({"property": prop, "signature": "borrow-not-enforced", "kind": "neg_compile",
+                                    "message": "a safe program that keeps what it obtained from the cache while it mutates, moves or drops the cache is accepted by the compiler: `%s` (harness_neg/src/main.rs lines %d-%d)" % (name, a, b)})
+            res["viol_counts"][prop] = res["viol_counts"].get(prop, 0) + 1
+    if len(res["samples"][prop]) < 3:
+        res["samples"][prop].append("%d programs, borrow-check errors on lines %s" % (len(blocks), sorted(err_lines)[:25]))
+    return {"job": job, "shard": shard, "seed": seed, "argv": argv, "mode": job["mode"], "rc": 0, "timed_out": False, "result": res, "reports": [], "last_marker": None,
+            "stderr_tail": "", "stdout_tail": "", "wall": time.time() - t0}
+
+
 def run_shard_once(job, shard, seed, tier, extra_miri):
+    if job.get("neg_compile"):
+        return run_neg_compile(job, shard, seed, tier)
     mode = job["mode"]
     argv = [job["cmd"]] + [a.format(seed=seed, shard=shard, nshards=job["shards"], tier=tier) for a in job["args"]]
     argv += ["--seed", str(seed), "--shard", str(shard), "--nshards", str(job["shards"])]
@@ -161,6 +211,13 @@ def run_shard_once(job, shard, seed, tier, extra_miri):
                 sig = "totality-stack-overflow" if overflow else ("totality-panic" if "panicked" in se else "totality-died")
                 res["failures"].append({"property": prop, "signature": sig, "kind": "exit", "message": "`%s` (%s build) did not finish: exit status %s; %s" % (what, mode, rc, se.strip()[-300:].replace("\n", " | "))})
                 res["viol_counts"][prop] = 1
+    if job.get("abort_ok") and res is None and not timed_out and rc == -6 and re.search(r"memory allocation of \d+ bytes failed", se) and "CASE clone_refusal armed" in so:
+        # an infallible operation was refused memory on purpose: aborting is what it is specified to do (nothing returned, nothing to judge)
+        prop = job["prop"]
+        res = {"events": 1, "evals": {prop: 1}, "distinct": {prop: ["%x" % splitmix(mode, " ".join(argv))]}, "counters": {"c14_clone_refusal_process_aborted": 1}, "maxima": {}, "failures": [], "viol_counts": {},
+               "samples": {prop: [[l for l in so.splitlines() if l.startswith("CASE ")][-1][:200] + " -> process aborted (handle_alloc_error)"]}}
+        se = ""
+        rc = 0
     reports = []
     text = so + "\n" + se
     for pat, kind in SAN_PATTERNS:
@@ -202,14 +259,20 @@ def run_check(prop, tier, seed):
     only = os.environ.get("VERIF_ONLY_MODES")  # selftest speed-up; never set by the registered commands
     if only:
         jobs = [j for j in jobs if j["mode"] in only.split(",")]
-    modes = sorted(set((j["mode"], j.get("bin", "lruverif")) for j in jobs))
+    modes = sorted(set((j["mode"], j.get("bin", "lruverif")) for j in jobs if not j.get("neg_compile")))
     os.makedirs(EVID, exist_ok=True)
     os.makedirs(REPLAYS, exist_ok=True)
     compile_violations = []
+    neg_results = [run_shard(j, 0, seed, tier) for j in jobs if j.get("neg_compile")]
+    jobs = [j for j in jobs if not j.get("neg_compile")]
+    neg_violated = any(r["result"] and r["result"].get("viol_counts") for r in neg_results)
     for m, b in modes:
         ok, msg = build(m, b)
         if not ok:
             log(msg)
+            if neg_violated:
+                # the harness no longer builds against this tree, but the compiler has already accepted a program it must reject
+                return merge(prop, tier, seed, t0, neg_results, compile_violations)
             cv = [j for j in jobs if j["mode"] == m and j.get("bin", "lruverif") == b and j.get("compile_verdict")]
             if cv and len(cv) == len([j for j in jobs if j["mode"] == m and j.get("bin", "lruverif") == b]) and any((mm, bb) != (m, b) for mm, bb in modes):
                 # an exercise program whose only purpose is to USE the API in a way the property promises must compile:
@@ -228,7 +291,7 @@ def run_check(prop, tier, seed):
     tasks.sort(key=lambda t: {"miri": 0, "tsan": 1, "asan": 2}.get(t[0]["mode"], 3))
     with ThreadPoolExecutor(max_workers=NCPU) as ex:
         results = list(ex.map(lambda t: run_shard(t[0], t[1], t[2], tier), tasks))
-    return merge(prop, tier, seed, t0, results, compile_violations)
+    return merge(prop, tier, seed, t0, neg_results + results, compile_violations)
 
 
 def merge(prop, tier, seed, t0, results, compile_violations=()):
@@ -425,6 +488,19 @@ def replay(path):
         rec = json.load(f)
     mode = rec.get("mode", "native")
     a0 = rec.get("argv", [""])[0]
+    if a0 == "neg_compile":
+        r = run_neg_compile({"prop": rec.get("property"), "mode": "native"}, 0, 0, "quick")
+        hits = [f for f in (r["result"] or {}).get("failures", [])]
+        if r["result"] is None:
+            print("INCONCLUSIVE property=%s reason=%s" % (rec.get("property"), r["stderr_tail"][:300]))
+            return 2
+        if hits:
+            print("VIOLATION property=%s replay=%s" % (rec.get("property"), path))
+            for f in hits[:3]:
+                print("  %s" % f["message"][:600])
+            return 1
+        print("replay of %s: no violation of %s reproduced" % (path, rec.get("property")))
+        return 0
     bin = "lruverif_tot" if a0 == "memsize_total" else "lruverif_ms" if a0 == "memsize" else "lruverif"
     ok, msg = build(mode, bin)
     if not ok:
